@@ -14,6 +14,8 @@ pub enum Frame {
     Hel,
     OpnIssue,
     OpnRenew,
+    /// an Issue the server has to refuse (security mode Invalid): no channel exists afterwards
+    OpnRefused,
     /// 0 GetEndpoints, 1 FindServers, 2 CreateSession, 3 Read
     Msg(u8),
     Clo,
@@ -80,10 +82,13 @@ fn in_process(ctx: &Ctx, frames: &Vec<Frame>) -> PResult {
                     break;
                 }
                 let msg: SupportedMessage = match other {
-                    Frame::OpnIssue | Frame::OpnRenew => {
+                    Frame::OpnIssue | Frame::OpnRenew | Frame::OpnRefused => {
                         let mut m = peer.open_request();
                         if let (SupportedMessage::OpenSecureChannelRequest(r), Frame::OpnRenew) = (&mut m, other) {
                             r.request_type = SecurityTokenRequestType::Renew;
+                        }
+                        if let (SupportedMessage::OpenSecureChannelRequest(r), Frame::OpnRefused) = (&mut m, other) {
+                            r.security_mode = MessageSecurityMode::Invalid;
                         }
                         m
                     }
@@ -107,7 +112,11 @@ fn in_process(ctx: &Ctx, frames: &Vec<Frame>) -> PResult {
                             return ctx.fail("open-channel/request-ignored", format!("frame {}: request kind {} on an open channel got no answer", i, k % 4));
                         }
                     }
-                    Frame::OpnIssue => {
+                    Frame::OpnIssue | Frame::OpnRefused => {
+                        if *other == Frame::OpnRefused && !channel_open {
+                            interesting = true;
+                            ctx.class("refused_issue_before_any_channel");
+                        }
                         if r.is_ok() && matches!(out.first(), Some((_, SupportedMessage::OpenSecureChannelResponse(_)))) {
                             if let Some((_, SupportedMessage::OpenSecureChannelResponse(resp))) = out.first() {
                                 peer.channel.set_secure_channel_id(resp.security_token.channel_id);
@@ -147,7 +156,7 @@ fn in_process(ctx: &Ctx, frames: &Vec<Frame>) -> PResult {
 }
 
 fn all_sequences(tier: Tier) -> Box<dyn Iterator<Item = Vec<Frame>>> {
-    let alphabet = vec![Frame::Hel, Frame::OpnIssue, Frame::OpnRenew, Frame::Msg(0), Frame::Msg(1), Frame::Msg(2), Frame::Msg(3), Frame::Clo];
+    let alphabet = vec![Frame::Hel, Frame::OpnIssue, Frame::OpnRenew, Frame::OpnRefused, Frame::Msg(0), Frame::Msg(1), Frame::Msg(2), Frame::Msg(3), Frame::Clo];
     let max_len = if tier == Tier::Thorough { 5 } else { 4 };
     let mut all: Vec<Vec<Frame>> = vec![vec![]];
     let mut level: Vec<Vec<Frame>> = vec![vec![]];
@@ -237,10 +246,13 @@ fn loopback(ctx: &Ctx, frames: &Vec<Frame>) -> PResult {
         handle += 1;
         let bytes: Vec<u8> = match f {
             Frame::Hel => opcua::core::comms::tcp_types::HelloMessage::new(&url, 65535, 65535, 0, 0).encode_to_vec(),
-            Frame::OpnIssue | Frame::OpnRenew => {
+            Frame::OpnIssue | Frame::OpnRenew | Frame::OpnRefused => {
                 let mut m = peer.open_request();
                 if let (SupportedMessage::OpenSecureChannelRequest(r), Frame::OpnRenew) = (&mut m, f) {
                     r.request_type = SecurityTokenRequestType::Renew;
+                }
+                if let (SupportedMessage::OpenSecureChannelRequest(r), Frame::OpnRefused) = (&mut m, f) {
+                    r.security_mode = MessageSecurityMode::Invalid;
                 }
                 peer.chunks(&m, 0)[0].data.clone()
             }
@@ -282,7 +294,7 @@ fn loopback(ctx: &Ctx, frames: &Vec<Frame>) -> PResult {
                     return ctx.fail("loopback/open-channel-request-dropped", what);
                 }
             }
-            Frame::OpnIssue => match ev {
+            Frame::OpnIssue | Frame::OpnRefused => match ev {
                 Event::Frame(t, data) if &t[..3] == b"OPN" => {
                     // adopt the issued channel and token ids, as a client does
                     let chunk = MessageChunk { data };
@@ -297,6 +309,9 @@ fn loopback(ctx: &Ctx, frames: &Vec<Frame>) -> PResult {
                     }
                 }
                 Event::Eof => break,
+                // a refusal travels as a ServiceFault in a MSG chunk and changes nothing
+                Event::Frame(t, _) if &t[..3] == b"MSG" => {}
+                Event::Frame(t, _) if &t[..3] == b"ERR" => break,
                 _ => return ctx.fail("loopback/unexpected-answer-to-open", what),
             },
             Frame::OpnRenew => match ev {
@@ -321,7 +336,7 @@ fn loopback(ctx: &Ctx, frames: &Vec<Frame>) -> PResult {
 
 fn loopback_sequences(tier: Tier) -> Box<dyn Iterator<Item = Vec<Frame>>> {
     let max_len = if tier == Tier::Thorough { 3 } else { 2 };
-    let alphabet = vec![Frame::Hel, Frame::OpnIssue, Frame::OpnRenew, Frame::Msg(0), Frame::Msg(2), Frame::Msg(3), Frame::Clo];
+    let alphabet = vec![Frame::Hel, Frame::OpnIssue, Frame::OpnRenew, Frame::OpnRefused, Frame::Msg(0), Frame::Msg(2), Frame::Msg(3), Frame::Clo];
     let mut all: Vec<Vec<Frame>> = Vec::new();
     let mut level: Vec<Vec<Frame>> = vec![vec![]];
     for _ in 0..max_len {
@@ -348,7 +363,7 @@ fn loopback_sequences(tier: Tier) -> Box<dyn Iterator<Item = Vec<Frame>>> {
 pub fn def() -> PropDef {
     PropDef {
         id: "C15",
-        rule: "every sequence of up to 4 (thorough: 5) frames over {HEL, OPN(Issue), OPN(Renew), MSG(GetEndpoints|FindServers|CreateSession|Read), CLO} delivered to a real server connection in-process, in the order its reading loop calls the private handlers, and every sequence of up to 2 (thorough: 3) frames plus selected longer ones over a loopback socket to a real running Server (one frame at a time, waiting for a complete frame or EOF), against the model WaitHello -> WaitOpen -> Open -> Closed; non-trivial = a MSG before any OpenSecureChannel, or a CLO; distinct = distinct sequence",
+        rule: "every sequence of up to 4 (thorough: 5) frames over {HEL, OPN(Issue), OPN(Renew), OPN(Issue that must be refused: security mode Invalid), MSG(GetEndpoints|FindServers|CreateSession|Read), CLO} delivered to a real server connection in-process, in the order its reading loop calls the private handlers, and every sequence of up to 2 (thorough: 3) frames plus selected longer ones over a loopback socket to a real running Server (one frame at a time, waiting for a complete frame or EOF), against the model WaitHello -> WaitOpen -> Open -> Closed; non-trivial = a MSG before any OpenSecureChannel, or a CLO; distinct = distinct sequence",
         assumptions: &["the rule that nothing but a Hello is accepted before the acknowledged Hello lives in the async reading loop; it is judged by the loopback part, the in-process part starts judging after the Hello", "on the socket a read timeout of 20 s is a watchdog: silence ends the run as inconclusive (exit 2), never as a verdict", "an error from a handler ends the reading loop (the connection is dropped), so nothing after it is processed"],
         abort_possible: false,
         parts: |_tier| vec![part_enum("in_process_all_sequences", all_sequences, in_process), part_enum("loopback_sequences", loopback_sequences, loopback)],
